@@ -4,6 +4,7 @@ import (
 	"bytes"
 	"errors"
 	"fmt"
+	"io"
 
 	gots "github.com/Comcast/gots/v2"
 	"github.com/Comcast/gots/v2/packet"
@@ -21,22 +22,31 @@ type c17Pred struct {
 	name    string
 	doneAt  int // done when len >= doneAt (0 = never)
 	errorAt int // error when len >= errorAt (0 = never); checked before doneAt
+	// errVal: the error VALUE the failing predicate returns (nil = a private one); the library's own sentinels
+	// are in the alphabet because a predicate built on another accumulator or reader returns exactly those
+	errVal error
 }
 
 var c17Preds = []c17Pred{
-	{"never", 0, 0},
-	{"done>=1", 1, 0},
-	{"done>=184", 184, 0},
-	{"done>=185", 185, 0},
-	{"done>=368", 368, 0},
-	{"error>=184", 0, 184},
-	{"error>=368", 0, 368},
-	{"done>=184,error>=368", 184, 368},
-	{"error>=185,done>=1", 1, 185},
+	{"never", 0, 0, nil},
+	{"done>=1", 1, 0, nil},
+	{"done>=184", 184, 0, nil},
+	{"done>=185", 185, 0, nil},
+	{"done>=368", 368, 0, nil},
+	{"error>=184", 0, 184, nil},
+	{"error>=368", 0, 368, nil},
+	{"done>=184,error>=368", 184, 368, nil},
+	{"error>=185,done>=1", 1, 185, nil},
+	{"error(gots.ErrAccumulatorDone)>=184", 0, 184, gots.ErrAccumulatorDone},
+	{"error(gots.ErrNoPayload)>=1", 0, 1, gots.ErrNoPayload},
+	{"error(io.EOF)>=185,done>=368", 368, 185, io.EOF},
 }
 
 func (p c17Pred) eval(n int) (bool, error) {
 	if p.errorAt > 0 && n >= p.errorAt {
+		if p.errVal != nil {
+			return false, p.errVal
+		}
 		return false, errC17Pred
 	}
 	if p.doneAt > 0 && n >= p.doneAt {
@@ -398,13 +408,50 @@ func c17CheckLong(c c17Long) engine.Result {
 	return res
 }
 
+// c17Train: one long unit followed by a train of short units on the same accumulator.
+type c17Train struct {
+	Pred  int `json:"predicate"`
+	Long  int `json:"packets_in_the_long_unit"`
+	Units int `json:"short_units"`
+	Short int `json:"continuations_per_short_unit"`
+	// ResetEvery: a Reset before every n-th short unit's start (0 = never)
+	ResetEvery int `json:"reset_before_every_nth_unit,omitempty"`
+}
+
+func c17CheckTrain(c c17Train) engine.Result {
+	var res engine.Result
+	s := c17New(c.Pred)
+	hist := []int{0}
+	for i := 1; i < c.Long; i++ {
+		hist = append(hist, 2+i%2)
+	}
+	for u := 0; u < c.Units; u++ {
+		if c.ResetEvery > 0 && u%c.ResetEvery == c.ResetEvery-1 {
+			hist = append(hist, len(c17Alphabet))
+		}
+		hist = append(hist, u%2) // unit starts with payload A / B
+		for i := 0; i < c.Short; i++ {
+			hist = append(hist, 2+(i+u)%2)
+		}
+	}
+	for _, op := range hist {
+		c17Apply(s, op, &res)
+		res.Evals++
+		if len(res.Fail) > 0 {
+			break
+		}
+	}
+	res.Nontrivial = 1
+	return res
+}
+
 func init() {
 	engine.Register(&engine.Property{
 		ID: "C17", Title: "Payload accumulator returns exactly the payloads since the last unit start", Level: "model_checking",
 		Scenarios: []engine.ScenarioRunner{
 			&engine.BFS[*c17State]{
 				Name:  "histories",
-				Rule:  "BFS over all histories of {WritePacket(p) for 17 packets (two on the null PID 0x1FFF; unit starts carrying a PES packet start that announces fewer / more bytes than the payload holds and a PSI section start; PUSI/continuation x 184-byte payloads A/B, 3-byte and 1-byte payloads behind adaptation-field stuffing, AF-only with and without PUSI, AF length 183 with payload flag, adaptation_field_control 00 with and without PUSI), Reset} from a new accumulator, one run per completion predicate (never; done at >=1/184/185/368 bytes; error at >=184/368; done-then-error; error-after-done); after every call Bytes(), Packets(), the predicate's argument, the returned error class and input immutability are compared with a list model, returned slices are overwritten as aliasing probes (also the packets the returned list points to: Bytes() must not follow them), and after Reset the canonical state must equal a new accumulator's; canonical key = private state (hook) + bytes + packets + model flags; depth 6 (quick) / 8 (thorough)",
+				Rule:  "BFS over all histories of {WritePacket(p) for 17 packets (two on the null PID 0x1FFF; unit starts carrying a PES packet start that announces fewer / more bytes than the payload holds and a PSI section start; PUSI/continuation x 184-byte payloads A/B, 3-byte and 1-byte payloads behind adaptation-field stuffing, AF-only with and without PUSI, AF length 183 with payload flag, adaptation_field_control 00 with and without PUSI), Reset} from a new accumulator, one run per completion predicate (never; done at >=1/184/185/368 bytes; error at >=184/368; done-then-error; error-after-done; failing with the library's own sentinel values gots.ErrAccumulatorDone / gots.ErrNoPayload / io.EOF as the predicate's error — a failing predicate never completes the accumulation, whatever its error value is); after every call Bytes(), Packets(), the predicate's argument, the returned error class and input immutability are compared with a list model, returned slices are overwritten as aliasing probes (also the packets the returned list points to: Bytes() must not follow them), and after Reset the canonical state must equal a new accumulator's; canonical key = private state (hook) + bytes + packets + model flags; depth 6 (quick) / 8 (thorough)",
 				Inits: func(r *engine.Run) []int { return seq(0, len(c17Preds)-1) },
 				NOps:  func(r *engine.Run) int { return len(c17Alphabet) + 1 },
 				New:   c17New,
@@ -461,6 +508,33 @@ func init() {
 					}
 				},
 				Check: c17CheckLong, Batch: 8,
+			},
+			&engine.Enum[c17Train]{
+				Name: "unit-trains",
+				Rule: "for predicates {never, done>=368, error>=368} x a long unit of L packets, L in {1, 8, 20, 33..36, 45, 60, 90, 180, 360} (thorough also 720, 1440) x a train of 1..12 (thorough 1..24) further units on the same accumulator, each of 0/1/2/5/16 continuations, started by a unit-start packet written directly in accumulating state or after a Reset before every 1st/2nd/3rd/5th unit: every call judged by the list model (what an implementation does with its storage after a big unit — shrink, recycle, pool — must never show in Bytes()/Packets(), however many unit starts later)",
+				Gen: func(r *engine.Run, emit func(c17Train)) {
+					longs := []int{1, 8, 20, 33, 34, 35, 36, 45, 60, 90, 180, 360}
+					maxU := 12
+					if r.Thorough() {
+						longs = append(longs, 720, 1440)
+						maxU = 24
+					}
+					for _, p := range []int{0, 4, 6} {
+						for _, l := range longs {
+							for u := 1; u <= maxU; u++ {
+								for _, sh := range []int{0, 1, 2, 5, 16} {
+									for _, re := range []int{0, 1, 2, 3, 5} {
+										if p != 0 && (sh > 2 || re > 2) {
+											continue
+										}
+										emit(c17Train{p, l, u, sh, re})
+									}
+								}
+							}
+						}
+					}
+				},
+				Check: c17CheckTrain, Batch: 8,
 			},
 		},
 	})
